@@ -1,6 +1,7 @@
 import Gomjml.Core.InlineTag
 import Gomjml.Core.InlineScan
 import Gomjml.Core.CharData
+import Gomjml.Core.InlineCss
 import Driver.PassP
 /-! driver sub-protocols `inltag` (the inline-style scanner's per-tag step) and `mergestyle` -/
 open Gomjml.InlineTag
@@ -63,5 +64,13 @@ def mergeHandle (args : List String) : String :=
   match args with
   | [a, b] => Driver.PassP.hexOfBytes (mergeStyle (unhexL (a.drop 1).toString) (unhexL (b.drop 1).toString))
   | _ => "bad-request"
+
+/-- `inlcss <style text> …` (hex, one argument per inline block; `-` = the empty text) → the table:
+    `<class>:<prop>=<val>,<prop>=<val>;…` in order of first appearance (all hex) -/
+def cssHandle (args : List String) : String :=
+  let texts := args.map (fun a => if a == "-" then [] else unhexL a)
+  let t := Gomjml.InlineCss.collect texts
+  ";".intercalate (t.map fun kv =>
+    Driver.PassP.hexOfBytes kv.1 ++ ":" ++ ",".intercalate (kv.2.map fun d => Driver.PassP.hexOfBytes d.prop ++ "=" ++ Driver.PassP.hexOfBytes d.val))
 
 end Driver.InlP
